@@ -470,6 +470,7 @@ func c18Levels(tier string) []core.Level {
 	bound := 2
 	if thorough(tier) {
 		bound = 3
+		c18ScenarioCap = 8 * time.Minute // three preemptions over the longest pairs; a capped scenario makes the run exhaustive:false
 	}
 	n := len(c18Ops)
 	// all pairs of the first 12 operations; the later ones (nested includes, nil-context calls, padded templates with
@@ -577,7 +578,7 @@ func init() {
 		Run:          c18Run,
 		NoDedup:      true,
 		Procs:        1, // cooperative hand-offs are ~10x cheaper on one P; the race workers use 4
-		Budget:       budget(5*time.Minute, 25*time.Minute),
+		Budget:       budget(5*time.Minute, 75*time.Minute),
 		CaseDeadline: 10 * time.Minute,
 	})
 }
